@@ -28,6 +28,9 @@ def build(ctx, family, only_step=None):
         if ctx.hardware_avx512:
             xcfg.append(('a512', ctx.flags_native(avx512=True, extra=inc)))
         xcfg.append(('march', ctx.flags_native(avx512=False, extra=inc + ['-march=native'])))
+        import shutil
+        if shutil.which('clang++'):  # another compiler (argument evaluation order, different code generation); optional
+            xcfg.append(('clang', ctx.flags_native(avx512=False, omp=False, extra=inc + ['--cxx=clang++', '--optional'])))
         for tag, fl in xcfg:
             objs.append((pre + '_nat_%s.o' % tag, [MTU], fl + ['-DKNS=nat', '-c'], []))
     ctx.xcfg = [t_ for t_, _ in xcfg]
@@ -35,7 +38,8 @@ def build(ctx, family, only_step=None):
     jobs = []
     for tag, fl in xcfg:
         if pre + '_nat_%s.o' % tag in o:
-            jobs.append((pre + '_native_' + tag, [MAIN, o[pre + '_nat_%s.o' % tag], os.path.join(vlib.SRC, 'goldilocks_base_field.cpp')], fl + ['-DHAVE_NAT'], ['-lgmp']))
+            lf = fl if tag != 'clang' else ctx.flags_native(avx512=False, extra=inc + ['--optional'])  # the clang object is linked into a g++ harness
+            jobs.append((pre + '_native_' + tag, [MAIN, o[pre + '_nat_%s.o' % tag], os.path.join(vlib.SRC, 'goldilocks_base_field.cpp')], lf + ['-DHAVE_NAT'], ['-lgmp']))
     if ctx.native_ok:
         jobs.append((pre + '_native', [MAIN, o[pre + '_nat.o'], os.path.join(vlib.SRC, 'goldilocks_base_field.cpp')], ctx.flags_native(avx512=avx512, extra=inc + ['-DHAVE_NAT']), ['-lgmp']))
     if t:
@@ -68,7 +72,7 @@ def explore(ctx):
         n = pre + '_native_' + tag
         if n in ctx.bins:
             ctx.run_step(n, ctx.bins[n], fa)
-            ctx.bounds.setdefault('other build configurations of the same kernels', []).append({'a512': '-mavx512f -D__AVX512__', 'march': '-march=native'}[tag])
+            ctx.bounds.setdefault('other build configurations of the same kernels', []).append({'a512': '-mavx512f -D__AVX512__', 'march': '-march=native', 'clang': 'clang++'}[tag])
     for w in ctx.widths:
         n = pre + '_w%d' % w
         if n in ctx.bins:
